@@ -12,6 +12,9 @@ namespace Props.C23
 
 theorem gen_fsinfo_from_config : Gen.fsinfoUsesTransferSize = true := by decide
 theorem gen_record_limit : Gen.defaultMaxRecordSize = 1048576 := by decide
+/-- the hypothesis `0 < cfg.transfer` of the theorems below: construction defaults TransferSize, and a runtime
+    update defaults its snapshot *before* publishing it, so no request ever loads a zero TransferSize -/
+theorem gen_transfer_defaulted : Gen.cfgNewUsesSharedDefaults = true ∧ Gen.cfgTuningUpdateAppliesDefaults = true := by decide
 
 /-- the advertised maxima and preferred sizes -/
 def advertised (cfg : Cfg) : Nat × Nat × Nat :=
